@@ -42,6 +42,16 @@ template <class T> static void consist (Gen<T>& g, int k)
     {
         Rec r ("qmul"); r.str ("t", t); r.raw ("q", jv (q)); r.raw ("p", jv (p));
         r.raw ("mq", jv (q.toMatrix33 ())); r.raw ("mp", jv (p.toMatrix33 ())); r.raw ("mqp", jv ((q * p).toMatrix33 ())); r.emit ();
+        // the compound spelling, and a quaternion multiplied by itself (operand aliases the destination)
+        Quat<T> c = q; c *= p;
+        Rec r2 ("qmul"); r2.str ("t", t); r2.raw ("q", jv (q)); r2.raw ("p", jv (p));
+        r2.raw ("mq", jv (q.toMatrix33 ())); r2.raw ("mp", jv (p.toMatrix33 ())); r2.raw ("mqp", jv (c.toMatrix33 ())); r2.emit ();
+        Quat<T> d = q; d *= d;
+        Rec r3 ("qmul"); r3.str ("t", t); r3.raw ("q", jv (q)); r3.raw ("p", jv (q));
+        r3.raw ("mq", jv (q.toMatrix33 ())); r3.raw ("mp", jv (q.toMatrix33 ())); r3.raw ("mqp", jv (d.toMatrix33 ())); r3.emit ();
+        Quat<T> e = q * q;
+        Rec r4 ("qmul"); r4.str ("t", t); r4.raw ("q", jv (q)); r4.raw ("p", jv (q));
+        r4.raw ("mq", jv (q.toMatrix33 ())); r4.raw ("mp", jv (q.toMatrix33 ())); r4.raw ("mqp", jv (e.toMatrix33 ())); r4.emit ();
     }
     {
         // axis-angle: Quat and Matrix44 describe the same rotation
